@@ -10,7 +10,9 @@
    [Setup | PyWrite | PyRead | NtWrite | NtRead] over any number of instances;
    [py_read w i a] is what the descriptor's __get__ returns.
    Out of the model (ntcore): a topic that already exists with another type,
-   values that do not fit the topic type, the network. *)
+   values that do not fit the topic type and are rejected by pybind (what an
+   entry makes of an accepted value is [entry_value]), the network; a class
+   binding one tunable object under two public names ([prog_class] = None). *)
 From Coq Require Import String List Bool ZArith NArith.
 From RV Require Import Tunable.Model Tunable.Proofs.
 Import ListNotations.
@@ -41,13 +43,13 @@ Theorem C09_setup_binds_key : forall w i cls p c d,
   snd (step w (Setup i cls p c)) = EvSetup true ->
   exists b ty, inst_get (w_inst (fst (step w (Setup i cls p c)))) i = Some b /\
     decl_topic (d_default d) (d_hint d) = Ok ty /\
-    bind_get b (d_attr d) = Some (key_of p c (d_subtable d) (d_attr d), ty, canon (d_default d)).
+    bind_get b (d_attr d) = Some (key_of p c (d_subtable d) (d_attr d), ty, entry_value ty (d_default d)).
 Proof. exact setup_binds. Qed.
 
 (* attribute assignment on a bound tunable lands in the topic at its key ... *)
 Theorem C09_attr_write_reaches_topic : forall w i b a k ty d v,
   inst_get (w_inst w) i = Some b -> bind_get b a = Some (k, ty, d) ->
-  nt_get (w_nt (fst (step w (PyWrite i a v)))) k = Some (ty, canon v).
+  nt_get (w_nt (fst (step w (PyWrite i a v)))) k = Some (ty, entry_value ty v).
 Proof. exact bound_write_reaches_topic. Qed.
 
 (* ... and attribute access returns what the topic at its key holds *)
@@ -141,10 +143,10 @@ Theorem C09_write_default : forall w i cls p c d,
   snd (step w (Setup i cls p c)) = EvSetup true ->
   exists ty, decl_topic (d_default d) (d_hint d) = Ok ty /\
   nt_get (w_nt (fst (step w (Setup i cls p c)))) (key_of p c (d_subtable d) (d_attr d)) =
-  if d_wd d then Some (ty, canon (d_default d))
+  if d_wd d then Some (ty, entry_value ty (d_default d))
   else match nt_get (w_nt w) (key_of p c (d_subtable d) (d_attr d)) with
        | Some tv => Some tv
-       | None => Some (ty, canon (d_default d))
+       | None => Some (ty, entry_value ty (d_default d))
        end.
 Proof. exact setup_write_default. Qed.
 
@@ -274,7 +276,7 @@ Theorem C09_setup_binds_spelled : forall w i cls p c d sp h,
   snd (step w (Setup i cls p c)) = EvSetup true ->
   exists b ty, inst_get (w_inst (fst (step w (Setup i cls p c)))) i = Some b /\
     spec_decl (d_default d) h = Some ty /\
-    bind_get b (d_attr d) = Some (key_of p c (d_subtable d) (d_attr d), ty, canon (d_default d)).
+    bind_get b (d_attr d) = Some (key_of p c (d_subtable d) (d_attr d), ty, entry_value ty (d_default d)).
 Proof. exact setup_binds_spelled. Qed.
 
 (* ---- the owner's truthiness plays no role ----------------------------- *)
@@ -345,7 +347,7 @@ Proof. exact read_never_self. Qed.
 (* attribute assignment on an owner of any truthiness lands in its topic *)
 Theorem C09_write_falsy_owner : forall w i t b a k ty d v,
   inst_get (w_inst w) i = Some b -> bind_get b a = Some (k, ty, d) ->
-  nt_get (w_nt (fst (tunable_set w (i, t) a v))) k = Some (ty, canon v).
+  nt_get (w_nt (fst (tunable_set w (i, t) a v))) k = Some (ty, entry_value ty v).
 Proof. exact write_reaches_topic_any_truth. Qed.
 
 (* what a truthiness change must not change: NetworkTables, the bindings, and
@@ -404,12 +406,12 @@ Theorem C09_setup_hierarchy : forall w i mro p c d,
   snd (step w (setup_class i mro p c)) = EvSetup true ->
   exists b ty, inst_get (w_inst (fst (step w (setup_class i mro p c)))) i = Some b /\
     decl_topic (d_default d) (d_hint d) = Ok ty /\
-    bind_get b (d_attr d) = Some (key_of p c (d_subtable d) (d_attr d), ty, canon (d_default d)) /\
+    bind_get b (d_attr d) = Some (key_of p c (d_subtable d) (d_attr d), ty, entry_value ty (d_default d)) /\
     nt_get (w_nt (fst (step w (setup_class i mro p c)))) (key_of p c (d_subtable d) (d_attr d)) =
-    if d_wd d then Some (ty, canon (d_default d))
+    if d_wd d then Some (ty, entry_value ty (d_default d))
     else match nt_get (w_nt w) (key_of p c (d_subtable d) (d_attr d)) with
          | Some tv => Some tv
-         | None => Some (ty, canon (d_default d))
+         | None => Some (ty, entry_value ty (d_default d))
          end.
 Proof. exact setup_hierarchy. Qed.
 
@@ -418,11 +420,12 @@ Theorem C09_setup_hierarchy_read : forall w i mro p c d,
   (forall b m, In b mro -> In m b -> no_slash (member_name m) = true) ->
   class_getattr mro (d_attr d) = Some (MTun d) -> public d = true ->
   snd (step w (setup_class i mro p c)) = EvSetup true ->
+  exists ty, decl_topic (d_default d) (d_hint d) = Ok ty /\
   py_read (fst (step w (setup_class i mro p c))) i (d_attr d) =
-  EvVal (if d_wd d then canon (d_default d)
+  EvVal (if d_wd d then entry_value ty (d_default d)
          else match nt_get (w_nt w) (key_of p c (d_subtable d) (d_attr d)) with
               | Some (_, v) => v
-              | None => canon (d_default d)
+              | None => entry_value ty (d_default d)
               end).
 Proof. exact setup_hierarchy_read. Qed.
 
@@ -440,6 +443,119 @@ Proof. exact setup_hierarchy_untouched. Qed.
 Theorem C09_hierarchy_setup_succeeds : forall w i mro p c,
   hier_defined mro = true -> snd (step w (setup_class i mro p c)) = EvSetup true.
 Proof. exact hierarchy_setup_succeeds. Qed.
+
+(* ---- what a typed entry stores --------------------------------------- *)
+
+(* Vocabulary: [entry_value ty v] is what an entry of topic type [ty] makes of
+   the Python object v handed to getEntry(default) / set / setDefault: tuples
+   arrive as lists, and along Python's numeric tower an int (or bool) handed to
+   a double entry arrives as that float, a bool handed to an int entry as 0/1
+   (pybind; anything else that is not of the topic's type is rejected there
+   and outside the model).  [fits ty v]: v is a value of the topic's type.
+   The topic type comes from the HINT when there is one (C09_topic_type), so
+   `kp: float = tunable(0)` is a double topic whose default literal is an int. *)
+
+(* a value of the topic's type is stored as it is *)
+Theorem C09_typed_value_unchanged : forall ty v, fits ty v = true -> entry_value ty v = canon v.
+Proof. exact entry_value_fits. Qed.
+
+(* an int on a double topic is the same number, as a float ([SFloat n] is n/64) *)
+Theorem C09_int_on_double_topic : forall z,
+  entry_value NDouble (VScalar (SInt z)) = VScalar (SFloat (64 * z)) /\
+  forall l, entry_value NDoubleArr (VList (map SInt l)) = VList (map (fun z => SFloat (64 * z)) l) /\
+            entry_value NDoubleArr (VTuple (map SInt l)) = VList (map (fun z => SFloat (64 * z)) l).
+Proof. exact entry_value_int_on_double. Qed.
+
+(* instance.attr = v; instance.attr  returns what the entry made of v ... *)
+Theorem C09_write_reads_back : forall w i b a k ty d v,
+  inst_get (w_inst w) i = Some b -> bind_get b a = Some (k, ty, d) ->
+  py_read (fst (step w (PyWrite i a v))) i a = EvVal (entry_value ty v).
+Proof. exact py_write_read_back. Qed.
+
+(* ... so a python-side write of ANY value of the topic's type is what the
+   topic holds and what the next read returns -- whatever the entry's default
+   [d] is *)
+Theorem C09_write_of_topic_type_reads_back : forall w i b a k ty d v,
+  inst_get (w_inst w) i = Some b -> bind_get b a = Some (k, ty, d) -> fits ty v = true ->
+  py_read (fst (step w (PyWrite i a v))) i a = EvVal (canon v) /\
+  nt_get (w_nt (fst (step w (PyWrite i a v)))) k = Some (ty, canon v).
+Proof. exact write_typed_value_reads_back. Qed.
+
+(* through setup: [ty] is the topic type of the declaration (hint first, else
+   default); the Python type of the default plays no role in what a later
+   assignment of a value of type [ty] stores *)
+Theorem C09_setup_then_write_reads_back : forall w i cls p c d v,
+  NoDup (map d_attr cls) -> In d cls -> public d = true ->
+  snd (step w (Setup i cls p c)) = EvSetup true ->
+  exists ty, decl_topic (d_default d) (d_hint d) = Ok ty /\
+    (fits ty v = true ->
+     py_read (fst (step (fst (step w (Setup i cls p c))) (PyWrite i (d_attr d) v))) i (d_attr d)
+       = EvVal (canon v) /\
+     nt_get (w_nt (fst (step (fst (step w (Setup i cls p c))) (PyWrite i (d_attr d) v))))
+            (key_of p c (d_subtable d) (d_attr d)) = Some (ty, canon v)).
+Proof. exact setup_then_write_reads_back. Qed.
+
+(* ---- one tunable object, several classes, each under its own name ----- *)
+
+(* Vocabulary (Model section 12): a [program] is the tunable OBJECTS it creates
+   ([tobj]: default, subscript hint, subtable, writeDefault -- no name) and its
+   class statements in execution order; a class body line is [OTun name oid ann]
+   (name [: ann] = object number oid) or [OPlain name].  A class is given by the
+   positions [ixs] of the class statements of its MRO.  [obj_hint pr oid] is the
+   hint behind the object's _topic_type slot = what the LAST __set_name__ call
+   of the whole program resolved.  [prog_class pr ixs] are the tunables of the
+   class as the loop of setup_tunables meets them; it is None for a class that
+   resolves two public names to ONE object (outside the model, see Model.v). *)
+
+(* [pr] is ANY program -- any other classes may bind the object under any other
+   names, before or after this class.  For the class that resolves the public
+   name n to the object, a successful setup binds instance.n at
+   <prefix>/<cname>/[the object's subtable/]n  with n the name in THIS class,
+   and the object's default / writeDefault flag decide what the topic holds *)
+Theorem C09_shared_object_key : forall w i pr ixs om cls p c n oid ann o,
+  prog_stmts pr ixs = Some om -> prog_class pr ixs = Some cls ->
+  (forall b ob, In b om -> In ob b -> no_slash (obind_name ob) = true) ->
+  omro_getattr om n = Some (OTun n oid ann) ->
+  nth_error (p_objs pr) oid = Some o ->
+  starts_with "_" n = false ->
+  snd (step w (Setup i cls p c)) = EvSetup true ->
+  exists b ty, inst_get (w_inst (fst (step w (Setup i cls p c)))) i = Some b /\
+    decl_topic (t_default o) (obj_hint pr oid) = Ok ty /\
+    bind_get b n = Some (key_of p c (t_subtable o) n, ty, entry_value ty (t_default o)) /\
+    nt_get (w_nt (fst (step w (Setup i cls p c)))) (key_of p c (t_subtable o) n) =
+    if t_wd o then Some (ty, entry_value ty (t_default o))
+    else match nt_get (w_nt w) (key_of p c (t_subtable o) n) with
+         | Some tv => Some tv
+         | None => Some (ty, entry_value ty (t_default o))
+         end.
+Proof. exact shared_object_setup. Qed.
+
+(* the hint behind the topic type of a shared object: when every class body
+   that binds it resolves the same hint hh, that one *)
+Theorem C09_shared_object_hint : forall pr oid o hh,
+  nth_error (p_objs pr) oid = Some o ->
+  (exists stmt n ann, In stmt (p_stmts pr) /\ In (OTun n oid ann) stmt) ->
+  (forall stmt n ann, In stmt (p_stmts pr) -> In (OTun n oid ann) stmt ->
+                      set_name_hint (mksrc (t_orig o) ann) = hh) ->
+  obj_hint pr oid = hh.
+Proof. exact shared_object_hint. Qed.
+
+(* a subscript on the object ( tunable[H](..) ) always decides *)
+Theorem C09_shared_object_hint_subscript : forall pr oid o h,
+  nth_error (p_objs pr) oid = Some o -> t_orig o = Some h ->
+  (exists stmt n ann, In stmt (p_stmts pr) /\ In (OTun n oid ann) stmt) ->
+  obj_hint pr oid = Some h.
+Proof. exact shared_object_hint_subscript. Qed.
+
+(* the documented table for a shared object whose binders all write the hint h
+   (or none), each in any accepted spelling *)
+Theorem C09_shared_object_topic_type : forall pr oid o h,
+  nth_error (p_objs pr) oid = Some o ->
+  (exists stmt n ann, In stmt (p_stmts pr) /\ In (OTun n oid ann) stmt) ->
+  (forall stmt n ann, In stmt (p_stmts pr) -> In (OTun n oid ann) stmt ->
+                      exists sp, mksrc (t_orig o) ann = spell_opt sp h) ->
+  res_to_option (decl_topic (t_default o) (obj_hint pr oid)) = spec_decl (t_default o) h.
+Proof. exact shared_object_topic_type. Qed.
 
 (* ---- non-vacuity ----------------------------------------------------- *)
 
@@ -611,6 +727,89 @@ Proof.
   vm_compute. reflexivity.
 Qed.
 
+(* shared presets, as a user writes them:
+     default_kp = tunable(0.5); default_limit = tunable(40, subtable="limits")
+     default_label = tunable("idle", writeDefault=False)
+     class Intake:  intake_kp = default_kp;  intake_current = default_limit;  mode = default_label; own = tunable(1.0)
+     class Shooter: shooter_kp = default_kp; shooter_current = default_limit; mode = default_label; own = tunable(2.0)
+                    kf: float = tunable(0)
+     class Robot:   drive_kp = default_kp;   breaker = default_limit
+   every owner gets the topic under ITS name for the object; `kf` is a double
+   topic with an int default literal: 0.75 and 2 assigned read back 0.75, 2.0 *)
+Definition ex_prog : program :=
+  mkprog
+    [ mktobj (VScalar (SFloat 32)) None None true;
+      mktobj (VScalar (SInt 40)) None (Some "limits") true;
+      mktobj (VScalar (SStr "idle")) None None false;
+      mktobj (VScalar (SFloat 64)) None None true;
+      mktobj (VScalar (SFloat 128)) None None true;
+      mktobj (VScalar (SInt 0)) None None true ]
+    [ [OTun "intake_kp" 0 None; OTun "intake_current" 1 None; OTun "mode" 2 None; OTun "own" 3 None];
+      [OTun "shooter_kp" 0 None; OTun "shooter_current" 1 None; OTun "mode" 2 None; OTun "own" 4 None;
+       OTun "kf" 5 (Some (RObj (APlain (IType (TBase BFloat)))))];
+      [OTun "drive_kp" 0 None; OTun "breaker" 1 None] ].
+Example C09_nv_shared :
+  prog_in_model ex_prog [[0]; [1]; [2]] = true /\
+  prog_stmts ex_prog [1] = Some [nth 1 (p_stmts ex_prog) []] /\
+  omro_getattr [nth 1 (p_stmts ex_prog) []] "shooter_kp" = Some (OTun "shooter_kp" 0 None) /\
+  omro_getattr [nth 0 (p_stmts ex_prog) []] "intake_kp" = Some (OTun "intake_kp" 0 None) /\
+  obj_hint ex_prog 5 = Some (TBase BFloat) /\ obj_hint ex_prog 0 = None /\
+  snd (run w0 [ NtWrite "/components/shooter/mode" NString (VScalar (SStr "spin"));
+                Setup 0 (prog_class_list ex_prog [0]) (Some "components") "intake";
+                Setup 1 (prog_class_list ex_prog [1]) (Some "components") "shooter";
+                Setup 2 (prog_class_list ex_prog [2]) None "robot";
+                NtRead "/components/intake/intake_kp"; NtRead "/components/shooter/shooter_kp";
+                NtRead "/robot/drive_kp"; NtRead "/components/intake/shooter_kp";
+                NtRead "/components/intake/drive_kp"; NtRead "/components/intake/limits/intake_current";
+                NtRead "/robot/limits/breaker";
+                PyWrite 0 "intake_kp" (VScalar (SFloat 48)); PyRead 0 "intake_kp";
+                PyRead 1 "shooter_kp"; PyRead 2 "drive_kp"; PyRead 0 "mode"; PyRead 1 "mode";
+                NtRead "/components/shooter/kf";
+                PyWrite 1 "kf" (VScalar (SFloat 48)); PyRead 1 "kf";
+                PyWrite 1 "kf" (VScalar (SInt 2)); PyRead 1 "kf"; NtRead "/components/shooter/kf" ]) =
+  [ EvWrote; EvSetup true; EvSetup true; EvSetup true;
+    EvNt (Some (NDouble, VScalar (SFloat 32))); EvNt (Some (NDouble, VScalar (SFloat 32)));
+    EvNt (Some (NDouble, VScalar (SFloat 32))); EvNt None; EvNt None;
+    EvNt (Some (NInteger, VScalar (SInt 40))); EvNt (Some (NInteger, VScalar (SInt 40)));
+    EvWrote; EvVal (VScalar (SFloat 48));
+    EvVal (VScalar (SFloat 32)); EvVal (VScalar (SFloat 32));
+    EvVal (VScalar (SStr "idle")); EvVal (VScalar (SStr "spin"));
+    EvNt (Some (NDouble, VScalar (SFloat 0)));
+    EvWrote; EvVal (VScalar (SFloat 48));
+    EvWrote; EvVal (VScalar (SFloat 128)); EvNt (Some (NDouble, VScalar (SFloat 128))) ] /\
+  fits NDouble (VScalar (SFloat 48)) = true /\ fits NDouble (VScalar (SInt 2)) = false /\
+  fits NDoubleArr (VTuple [SFloat 1; SFloat 2]) = true /\ fits NInteger (VScalar (SFloat 64)) = false.
+Proof. vm_compute. intuition. Qed.
+
+(* the model boundary: one object under two public names of one class (also
+   through a base class) is outside the model; a private alias is not bound at
+   all and does no harm *)
+Example C09_nv_alias_outside_model :
+  let o := mktobj (VScalar (SInt 1)) None None true in
+  prog_class (mkprog [o] [[OTun "p" 0 None; OTun "q" 0 None]]) [0] = None /\
+  prog_class (mkprog [o] [[OTun "a1" 0 None]; [OTun "b1" 0 None]]) [1; 0] = None /\
+  (exists cls, prog_class (mkprog [o] [[OTun "p" 0 None; OTun "_q" 0 None]]) [0] = Some cls) /\
+  (exists cls, prog_class (mkprog [o] [[OTun "a1" 0 None]; [OTun "b1" 0 None]]) [1] = Some cls).
+Proof. vm_compute. repeat split; eexists; reflexivity. Qed.
+
+(* DISCREPANCY (the model follows the library): a shared object has ONE
+   _topic_type slot, so when the classes that bind it annotate it differently
+   the class statement that ran LAST decides for all of them:
+     shared = tunable(0);  class A: x: float = shared;  class B: y = shared
+   publishes A.x as an int topic although A writes the hint float; with the
+   class statements in the other order it is a double topic *)
+Example C09_shared_annotation_last_class_wins :
+  let o := mktobj (VScalar (SInt 0)) None None true in
+  let ax := OTun "x" 0 (Some (RObj (APlain (IType (TBase BFloat))))) in
+  let pr1 := mkprog [o] [[ax]; [OTun "y" 0 None]] in
+  let pr2 := mkprog [o] [[OTun "y" 0 None]; [ax]] in
+  obj_hint pr1 0 = None /\ obj_hint pr2 0 = Some (TBase BFloat) /\
+  snd (run w0 [Setup 0 (prog_class_list pr1 [0]) (Some "components") "a"; NtRead "/components/a/x"]) =
+    [EvSetup true; EvNt (Some (NInteger, VScalar (SInt 0)))] /\
+  snd (run w0 [Setup 0 (prog_class_list pr2 [1]) (Some "components") "a"; NtRead "/components/a/x"]) =
+    [EvSetup true; EvNt (Some (NDouble, VScalar (SFloat 0)))].
+Proof. vm_compute. intuition. Qed.
+
 Print Assumptions C09_key.
 Print Assumptions C09_setup_binds_key.
 Print Assumptions C09_attr_write_reaches_topic.
@@ -654,3 +853,12 @@ Print Assumptions C09_setup_hierarchy.
 Print Assumptions C09_setup_hierarchy_read.
 Print Assumptions C09_setup_hierarchy_untouched.
 Print Assumptions C09_hierarchy_setup_succeeds.
+Print Assumptions C09_typed_value_unchanged.
+Print Assumptions C09_int_on_double_topic.
+Print Assumptions C09_write_reads_back.
+Print Assumptions C09_write_of_topic_type_reads_back.
+Print Assumptions C09_setup_then_write_reads_back.
+Print Assumptions C09_shared_object_key.
+Print Assumptions C09_shared_object_hint.
+Print Assumptions C09_shared_object_hint_subscript.
+Print Assumptions C09_shared_object_topic_type.
